@@ -464,7 +464,9 @@ def same_value(a, b):
         return a is b
     if isinstance(a, (bool, int, float, str)) or isinstance(b, (bool, int, float, str)) or a is None or b is None:
         return type(a) is type(b) and a == b
-    return type(a) is type(b) and a == b
+    # union objects: a tag inherited from a parent union is the parent class's object (`Child.tag is Parent.tag`), which the
+    # generated classes treat as the same value (Union.__eq__, Union validator)
+    return (isinstance(a, type(b)) or isinstance(b, type(a))) and a == b
 
 
 # ======================================================================================================
@@ -519,9 +521,15 @@ def judge_module(ses):
             continue
         bad = signature_problem(ses, v, meth)
         if bad:
+            cause = 'unexplained'
+            if bad[0] == 'default-value' and 'tag-default-declared-through-alias-of-another-namespace' in v.causes() and \
+                    type(next(f for f in v.fields if f.name == bad[1]['param']).default).__name__ == 'TagRef':
+                # `<union's module>.<alias name>.<tag>` happens to name another class of that module
+                cause = 'tag-default-declared-through-alias-of-another-namespace'
             problems.append(('the parameters of a route method are not the argument fields (required positional in '
                              'declaration order, optional keyword with the spec defaults)',
-                             {'kind': 'signature', 'what': bad[0]}, {'route': v.label(), 'method': v.method, 'detail': bad[1],
+                             {'kind': 'signature', 'what': bad[0], 'cause': cause},
+                             {'route': v.label(), 'method': v.method, 'detail': bad[1],
                                                                       'signature': str(inspect.signature(meth))}))
     return problems
 
